@@ -581,4 +581,24 @@ registry! {
     c16_arm_get, "C16", thorough, 12, ascii, 1800 => c16::arm(b"GET", 0, 2, 2, c16arm!(GET)); // GET arm of both parsers (S7 extraction), arities 0..=2, arguments of 2 symbolic ASCII bytes
     c04_split_array_5_n0, "C04", quick, 12, alloc, 300 => c15::array(b"5", Some(5), 0, false); // a 5-element command whose '*5' header arrives alone in a read: both decoders must ask for more bytes (codec) / not accept (parser)
     c04_split_array_9_n1, "C04", thorough, 12, alloc, 300 => c15::array(b"9", Some(9), 1, false); // '*9' header + one complete element in the first read
+    c13_twin, "C13", experimental, 8, plain, 300 => c13::twin();
+    c13_fold_2, "C13", experimental, 8, plain, 900 => c13::fold(2, false); // 2 LWW updates of one key in the compacted segments: symbolic stamps (two replicas may share a time), bytes, tombstones; tombstone cutoff = any u64
+    c13_fold_2_outside, "C13", experimental, 8, plain, 1200 => c13::fold(2, true); // same + optionally one update of the key in a segment/checkpoint outside the compaction
+    c13_fold_3, "C13", experimental, 8, plain, 1800 => c13::fold(3, false); // 3 LWW updates of one key in the compacted segments
+    c11_plan_2, "C11", experimental, 8, plain, 600 => c11::segment_plan(2); // recover()'s segment selection: 2 listed segments, symbolic ids/min stamps, optional checkpoint with symbolic last_segment_id
+    c11_plan_3, "C11", experimental, 8, plain, 900 => c11::segment_plan(3); // same with 3 listed segments
+    c08_recovered_then_write, "C08", experimental, 6, noexec, 900 => c08::recovered_then_write(); // checkpoint entry (any stamp/author) enters through the ApplyRecoveredState arm (S10), then a local write: its stamp must exceed the recovered one
+    c19_ring_l3_lookup_rf2, "C19", experimental, 10, ring, 900 => c19::ring(3, 0, 2); // layout 3 (2 members x 2 virtual nodes), key position = any u64, rf = 2: lookup
+    c19_ring_l3_gossip_rf2, "C19", experimental, 10, ring, 900 => c19::ring(3, 1, 2); // layout 3, rf = 2: gossip targets
+    c19_ring_l4_lookup_rf2, "C19", experimental, 10, ring, 900 => c19::ring(4, 0, 2); // layout 4 (3 members x 1 virtual node), rf = 2: lookup
+    c19_ring_l4_lookup_rf3, "C19", experimental, 10, ring, 900 => c19::ring(4, 0, 3); // layout 4, rf = 3 = cluster size: lookup + join-order independence
+    c19_ring_l4_lookup_rf4, "C19", experimental, 10, ring, 900 => c19::ring(4, 0, 4); // layout 4, rf = 4 > cluster size
+    c19_ring_l4_gossip_rf3, "C19", experimental, 10, ring, 900 => c19::ring(4, 1, 3); // layout 4, rf = 3: gossip targets
+    c19_ring_l4_removal_rf2, "C19", experimental, 10, ring, 900 => c19::ring(4, 2, 2); // layout 4, rf = 2: removal of one member
+    c16_arm_setex, "C16", experimental, 12, ascii, 900 => c16::arm_spec(b"SETEX", &[A::S(1), A::D(1), A::S(1)], c16arm!(SETEX)); // SETEX arm of both parsers: key, seconds = optional '-' + 1 digit, value
+    c16_arm_lmove, "C16", experimental, 12, ascii, 900 => c16::arm_spec(b"LMOVE", &[A::S(1), A::S(1), A::K(b"LEFT"), A::K(b"RIGHT")], c16arm!(LMOVE)); // LMOVE arm: direction keywords in any letter case
+    c13_fold_2_c2, "C13", experimental, 8, plain, 900 => c13::fold(2, false); // as c13_fold_2 with the 2-slot container model
+    c13_fold_2_outside_c2, "C13", experimental, 8, plain, 1200 => c13::fold(2, true); // as c13_fold_2_outside with the 2-slot container model
+    c13_fold_3_c2, "C13", experimental, 8, plain, 1800 => c13::fold(3, false); // 3 updates, 2-slot container model
+    c13_twin_c2, "C13", experimental, 8, plain, 300 => c13::twin();
 }
